@@ -7,6 +7,9 @@ benign/<id>/verdict.txt).
 
   tools/benign.py list
   tools/benign.py run [name-substring ...]      (default: all)
+  tools/benign.py prun N [name-substring ...]   the same on N scratch copies in parallel (copies of /verif under
+                                                /tmp/verif-ben.<i>, each pointing at its own git worktree of /repo,
+                                                /tmp/repo-ben.<i>); /repo itself is not touched; copies removed afterwards
 
 Sources: benign/<id>/patch.diff (+ meta.json). Results are appended to benign/RESULTS.tsv.
 """
@@ -19,8 +22,9 @@ import subprocess
 import sys
 import time
 
-ROOT = os.path.dirname(os.path.dirname(os.path.abspath(__file__)))
-REPO = "/repo"
+ROOT = os.environ.get("BEN_ROOT") or os.path.dirname(os.path.dirname(os.path.abspath(__file__)))
+REPO = os.environ.get("BEN_REPO") or "/repo"
+SHARD = os.environ.get("BEN_SHARD")  # "i/n": worker i of n (prun)
 ALL = ["C%02d" % i for i in range(1, 21)]
 
 
@@ -54,7 +58,46 @@ def run_check(pid):
     return pid, rc, time.time() - t0, why
 
 
+def prun():
+    n = int(sys.argv[2])
+    sel = sys.argv[3:]
+    here = os.path.dirname(os.path.dirname(os.path.abspath(__file__)))
+    results_path = os.path.join(here, "benign", "RESULTS.tsv")
+    try:
+        baselen = len(open(results_path).read().splitlines())
+    except OSError:
+        baselen = 0
+    procs = []
+    try:
+        for i in range(n):
+            vroot, rroot = "/tmp/verif-ben.%d" % i, "/tmp/repo-ben.%d" % i
+            sh("rm -rf %s; git -C /repo worktree remove --force %s 2>/dev/null; rm -rf %s; git -C /repo worktree prune" % (vroot, rroot, rroot))
+            rc, out = sh("git -C /repo worktree add --detach %s HEAD" % rroot)
+            if rc != 0:
+                print(out)
+                return 2
+            sh("rsync -a --exclude .git --exclude .build --exclude .stats --exclude 'replays/C*.json' %s/ %s/" % (here, vroot))
+            sh("sed -i 's#=> /repo#=> %s#' %s/go.mod" % (rroot, vroot))
+            env = dict(os.environ, BEN_ROOT=vroot, BEN_REPO=rroot, BEN_SHARD="%d/%d" % (i, n))
+            procs.append(subprocess.Popen([sys.executable, os.path.join(vroot, "tools", "benign.py"), "run"] + sel, env=env))
+        for p in procs:
+            p.wait()
+        with open(results_path, "a") as f:
+            for i in range(n):
+                try:
+                    lines = open("/tmp/verif-ben.%d/benign/RESULTS.tsv" % i).read().splitlines()
+                except OSError:
+                    continue
+                f.write("".join(l + "\n" for l in lines[baselen:]))
+    finally:
+        for i in range(n):
+            sh("rm -rf /tmp/verif-ben.%d; git -C /repo worktree remove --force /tmp/repo-ben.%d 2>/dev/null; rm -rf /tmp/repo-ben.%d; git -C /repo worktree prune" % (i, i, i))
+    return 0
+
+
 def main():
+    if len(sys.argv) >= 3 and sys.argv[1] == "prun":
+        return prun()
     if len(sys.argv) < 2 or sys.argv[1] == "list":
         for name, path in changes():
             print(name, path)
@@ -67,9 +110,11 @@ def main():
     # build once up front so that parallel checks do not race on the first compile
     sh([os.path.join(ROOT, "check"), "--build"], cwd=ROOT)
     rows = []
-    for name, path in changes():
-        if sel and not any(s in name for s in sel):
-            continue
+    todo = [c for c in changes() if not sel or any(s in c[0] for s in sel)]
+    if SHARD:
+        i, n = map(int, SHARD.split("/"))
+        todo = todo[i::n]
+    for name, path in todo:
         try:
             rc, out = sh(["git", "apply", "--whitespace=nowarn", path], cwd=REPO)
             if rc != 0:
